@@ -24,6 +24,8 @@ def stages(tier, rng, only=None):
                                                         namings=["ints", "letters", "digits"]), _nt))
     out.append(ac.stage("larger", PID, lambda: ac.cases([ac.larger_dataset(rng) for _ in range(n_rand // 6)], ["Copeland"],
                                                         ac.PRESET + ac.MIXEDMAG[:2], namings=["ints", "letters"]), _nt))
+    small = grids.datasets(3, 2)[::2] + [ac.random_dataset(rng, 5, 5, nmin=2) for _ in range(n_rand // 4)]
+    out.append(ac.stage("lexicographic_penalties", PID, lambda: ac.lex_cases(small, ["Copeland"]), _nt))
     out.append(ac.stage("microscopic_penalties", PID, lambda: ac.scaled_cases(
         grids.datasets(3, 2)[::3] + [ac.random_dataset(rng, 6, 5) for _ in range(n_rand // 4)], ["Copeland"], ac.PRESET,
         40, namings=("ints", "letters")), _nt))
